@@ -8,6 +8,9 @@ CountExact, StopExact, StopsAtFirst, DepthBound, AlphaStat, NoNonFiniteSelected,
 at kernel level it computes the exact transition matrix on ring orbits and checks that it is doubly stochastic.
 Spec -> code: every emitted behaviour is executed on cuqi.experimental.mcmc.NUTS and cuqi.sampler.NUTS (orbit = table
 target, scripted numpy.random draws) and compared leaf by leaf, subtree by subtree, and in the final state.
+Aborted transitions (specs/NutsAbort.tla EXTENDS NutsSeq, harness/cuqiverif/c08_abort.py): the target raises at the k-th evaluation
+of a transition (every leaf of every behaviour x log-density | gradient); the triple stored on the sampler object must be
+coherent and the next transition of the same object must be the behaviour of the orbit seen from the stored point.
 Code -> spec: real chains on Gaussian targets are recorded as boolean facets and validated by TLC (TraceNuts.tla).
 """
 META = {
@@ -29,12 +32,22 @@ META = {
              "ended), with max_depth assigned between transitions and the target switched as HybridGibbs does (target, step_size, "
              "initial_point = current_point, reinitialize()); legacy: sample() calls on one object with max_depth / adapt_step_size / x0 / "
              "target assigned in between; after every operation the cached log-density and gradient belong to the current point under the "
-             "current target."),
+             "current target. Aborted transitions (NutsAbort.tla: stored triple st = [point, log-density, gradient] on the object, action "
+             "Abort(ev) at every leaf of every behaviour of the NutsSeq lattice x evaluation that raises (log-density | gradient); "
+             "invariants AbortCoherent, AbortPointDecided; deviations 'gradient / log-density / point stored once after the doubling "
+             "loop' refuted, the design that stores all three after the loop satisfies them): the table target raises at the evaluation "
+             "the spec names during sample(1) (fresh object, or in the second transition of the object), then current_point must be the "
+             "start or the candidate selected so far, the cached log-density and gradient must be the table values at it, and the next "
+             "sample(1) of the same object must be the Nuts behaviour of the orbit seen from that point (leaves, sub-trees, point, "
+             "caches, flag, statistic, step size); legacy: sample(3) on the same object after an aborted sample(3) must be the "
+             "behaviour of a fresh sampler."),
     "note": ("One transition at a fixed step size on 1-D lattice orbits (the tree logic does not depend on the dimension); the "
              "step-size adaptation itself is only covered through the statistic it consumes and the boolean trace facets; "
              "target invariance is decided as double stochasticity of the exact kernel on bounded ring orbits plus conformance "
              "of the code's decisions, not by a distributional test. cuqi.sampler.NUTS with a user step size of exactly 1 cannot be "
-             "replayed on the unchanged tree (finding C08-F3)."),
+             "replayed on the unchanged tree (finding C08-F3). Aborts: the failure is an exception raised once by the target's "
+             "log-density / gradient; how it surfaces is an observation; for the stateless sampler only the following sample() call on "
+             "the same object is judged (its chain state is local to _sample and lost with the exception)."),
     "technique": "TLA+ spec (Nuts) model-checked with TLC; TLC-generated behaviours replayed into both NUTS samplers; recorded traces validated by TLC",
 }
 
@@ -435,10 +448,13 @@ def run(ctx):
     for cls in NR.nuts_classes().values():
         NR.Tap(cls)                                   # wrapper targets present? (MachineryError otherwise)
     from cuqiverif import c08_seq
+    from cuqiverif import c08_abort
     seq_jobs = c08_seq.start_tlc(ctx)               # NutsSeq: behaviours on its lattice, object machine, two named deviations
+    abort_jobs = c08_abort.start_tlc(ctx)           # NutsAbort: every abort state of that lattice, rollback design, three named deviations
     try:
         res = _tlc_jobs(ctx)
     except BaseException:
+        c08_abort.discard(abort_jobs)
         for f in seq_jobs.values():
             try:
                 _tlc.cleanup(f.result())
@@ -487,8 +503,13 @@ def run(ctx):
         if DRAW_OBS:
             ctx.observe("conforming_behaviours_with_other_number_of_draws", DRAW_OBS)
         # ONE sampler object: several transitions, max_depth / step_size / target reassigned, reinitialize in between
-        c08_seq.run(ctx, seq_jobs, dirmap, _guard)
+        sq_orbits, sq_beh, sq_shift = c08_seq.run(ctx, seq_jobs, dirmap, _guard)
         seq_jobs = {}
+        # a transition that aborts at its k-th target evaluation (NutsAbort), then the next transition of the same object
+        aj, abort_jobs = abort_jobs, {}
+        acases = c08_abort.run(ctx, aj, sq_orbits, sq_beh, sq_shift, dirmap, _guard)
+        late = next((c for c in acases if c["st"]["p"] != 0 and c["nl"] == 3), acases[0])
+        ctx.sample({"abort_state": {k: late[k] for k in ("orb", "md", "ed", "draws", "leaves", "nl", "t", "ev", "st", "alt", "shifted")}})
         deep = max(nuts, key=lambda c: (len(c["draws"]), c["acc"]))
         ctx.sample({"behaviour": {k: deep[k] for k in ("orb", "md", "ed", "draws", "leaves", "subs", "cur", "acc", "ntree", "al", "na")},
                     "orbit": {k: orbits[_okey(deep["orb"])][k] for k in ("eps", "x", "r", "g", "lp")}})
@@ -504,6 +525,7 @@ def run(ctx):
                 _tlc.cleanup(f.result())
             except BaseException:      # noqa: BLE001
                 pass
+        c08_abort.discard(abort_jobs)
     ctx.rule = ("behaviours = all terminal states of the bounded Nuts instance (BFS: orbit word x phase x log-density table x step "
                 "size x max_depth 0..2 x slice draw x direction bits x decision classes; thorough adds simulated max_depth 3 "
                 "behaviours); each is replayed on both implementations; distinct = (implementation, orbit, max_depth, slice draw, "
@@ -532,6 +554,12 @@ def replay(ctx, case):
         return
     if kind == "direction":
         _dirmaps(ctx, {_okey(case["orbit"]["orb"]): case["orbit"]})
+        return
+    if kind == "nutsabort":
+        from cuqiverif import c08_seq, c08_abort
+        sq = c08_seq.collect_tlc(ctx, c08_seq.start_tlc(ctx))
+        o = next(iter(sq[0].values()))
+        c08_abort.replay(ctx, case, sq[0], sq[1], sq[2], _dirmaps(ctx, {_okey(o["orb"]): o}), _guard)
         return
     if kind == "nutsseq":
         from cuqiverif import c08_seq
